@@ -109,6 +109,89 @@ def full_variants(inp, nperm, part):
     return out
 
 
+# ---- call history on ONE compiler object (ufo2ft.TTFCompiler, ... VariableCFF2sCompiler) -------------
+# The compile functions create a compiler object per call; the classes are exported too, and an object
+# that already compiled something - or failed to - must behave like a fresh one.
+COMPILER_KINDS = {
+    "TTFCompiler": ("static", "compile"), "OTFCompiler": ("static", "compile"),
+    "InterpolatableTTFCompiler": ("ds", "compile_designspace"),
+    "InterpolatableOTFCompiler": ("ds", "compile_designspace"),
+    "VariableTTFsCompiler": ("ds", "compile_variable"), "VariableCFF2sCompiler": ("ds", "compile_variable"),
+}
+COMPILER_INPUTS = ["A", "B", "Xfea", "Xpts"]  # two good sources, bad feature code, incompatible masters
+
+
+def _compiler_input(kind, key):
+    from mc import ufo_build as B
+
+    def master(i, key):
+        d = 20 * i + (7 if key == "B" else 0)
+        tri = [(0, 0, "line"), (100 + d, 0, "line"), (50, 90 + d, "line")]
+        if key == "Xpts" and i == 1:
+            tri = tri + [(20, 40, "line")]  # one more point than in the other master
+        g = {".notdef": {"width": 500, "contours": [P.box(50, 0, 450, 700)]},
+             "a": {"width": 500 + d, "unicodes": [0x61], "contours": [tri], "anchors": [("top", 50, 100 + d)]},
+             "b": {"width": 520 + d, "unicodes": [0x62], "contours": [P.box(10, 0, 90 + d, 100)]},
+             "a.alt": {"width": 510 + d, "contours": [P.box(0, 0, 80 + d, 80)]},
+             "acutecomb": {"width": 0, "unicodes": [0x301], "contours": [P.box(-20, 500, 20, 560 + d)],
+                           "anchors": [("_top", 0, 480)]}}
+        if key == "B":
+            g["c"] = {"width": 400 + d, "unicodes": [0x63], "components": [("a", (1, 0, 0, 1, 5, 0))]}
+        fea = "feature ss01 { sub a by a.alt; } ss01;\n"
+        if key == "Xfea":
+            fea = "feature liga { sub a by nonexistent; } liga;\n"
+        return {"glyphs": g, "order": list(g), "kerning": [("a", "b", -30 - d)], "features": fea,
+                "info": {"styleName": "M%d" % i}}
+    if kind == "static":
+        return B.build_font(master(0, key))
+    return B.build_designspace([{"name": "Weight", "tag": "wght", "min": 0, "default": 0, "max": 1000}],
+                               [{"spec": master(0, key), "location": {"Weight": 0}, "name": "m0"},
+                                {"spec": master(1, key), "location": {"Weight": 1000}, "name": "m1"}])
+
+
+def _compiler_digest(kind, result):
+    import hashlib
+    import io
+    from fontTools.ttLib import TTFont
+    if isinstance(result, TTFont):
+        fonts = {"font": result}
+    elif isinstance(result, dict):
+        fonts = result
+    else:  # a designspace whose sources carry the compiled masters
+        fonts = {s.name: s.font for s in result.sources}
+    out = {}
+    for k, f in sorted(fonts.items()):
+        buf = io.BytesIO()
+        f.save(buf)
+        out[k] = [f.getGlyphOrder(), hashlib.sha256(buf.getvalue()).hexdigest()]
+    return out
+
+
+def run_compiler_history(c):
+    import ufo2ft
+    cls = getattr(ufo2ft, c["cls"])
+    kind, method = COMPILER_KINDS[c["cls"]]
+    hist = c["hist"]
+
+    def call(obj, key):
+        try:
+            return _compiler_digest(kind, getattr(obj, method)(_compiler_input(kind, key)))
+        except Exception as e:  # noqa: BLE001
+            return {"error": type(e).__name__}
+    obj = cls(**c["opts"])
+    got = [call(obj, k) for k in hist]
+    want = call(cls(**c["opts"]), hist[-1])
+    viols = []
+    failed_before = any("error" in r for r in got[:-1])
+    if got[-1] != want:
+        viols.append(violation("compiler-object-history", {"cls": c["cls"], "after_failure": failed_before,
+                                                           "opts": sorted(c["opts"])},
+                               history=hist, expected=want, observed=got[-1], earlier=got[:-1]))
+    ctr = {"compiler_object_histories": 1, "compiler_object_histories_after_failure": int(failed_before),
+           "compiler_object_failures_seen": sum(1 for r in got if "error" in r)}
+    return Result(viols, ctr, digest([c, got]), substates=1, nontrivial=1)
+
+
 class C08(Property):
     id = "C08"
     rule = ("state = (input, PYTHONHASHSEED) executed in a fresh subprocess; sub-states = variants "
@@ -132,13 +215,25 @@ class C08(Property):
                 "refdir": refdir, "hist_depth": 2 if tier == "quick" else 3,
                 "full_seeds": [0, 1] if tier == "quick" else [0, 1, 2, 3],
                 "nperm": 24 if tier == "quick" else 48, "nprobe": nprobe,
-                "history_input_seeds": 4 if tier == "quick" else 12}
+                "history_input_seeds": 4 if tier == "quick" else 12,
+                "compiler_hist": 2 if tier == "quick" else 3}
 
     def initial(self, b):
-        return [[{"input": i, "role": "ref"}] for i in P.INPUTS]
+        out = [[{"input": i, "role": "ref"}] for i in P.INPUTS]
+        for cls, (kind, _) in COMPILER_KINDS.items():
+            keys = [k for k in COMPILER_INPUTS if not (kind == "static" and k == "Xpts")]
+            for n in range(2, b["compiler_hist"] + 1):
+                for hist in itertools.product(keys, repeat=n):
+                    if hist[-1] not in ("A", "B"):
+                        continue
+                    for opts in ({}, {"useProductionNames": False}):
+                        if opts and n > 2:
+                            continue
+                        out.append([{"part": "compiler", "cls": cls, "hist": list(hist), "opts": opts}])
+        return out
 
     def ops(self, h, b):
-        if len(h) != 1:
+        if len(h) != 1 or h[0].get("part") == "compiler":
             return
         seeds = b["seeds"]
         if "fns" in P.INPUTS[h[0]["input"]]:
@@ -152,6 +247,8 @@ class C08(Property):
                 yield {"seed": s, "mode": "full", "part": part}
 
     def run(self, h, b):
+        if h[0].get("part") == "compiler":
+            return run_compiler_history(h[0])
         inp = h[0]["input"]
         refpath = os.path.join(b["refdir"], inp.replace("+", "_") + ".json")
         if len(h) == 1:
